@@ -1,6 +1,7 @@
 package main
 
 import (
+	"fmt"
 	"go/ast"
 	"go/parser"
 	"go/token"
@@ -78,6 +79,13 @@ func (f *file) expandDecl(fd *ast.FuncDecl) {
 		return
 	}
 	expandedDecls[fd] = true
+	if baseFP != nil {
+		if ids, ok := baseFP["@ids:"+f.path+":"+declName(fd)]; ok && ids != "" {
+			if renameBack(fd, strings.Split(ids, ",")) {
+				fmt.Printf("ANCHOR-RENAMED: %s: %s: locals given back their baseline names\n", f.path, declName(fd))
+			}
+		}
+	}
 	table := f.funcsOfPkg()
 	included := map[*ast.FuncDecl]bool{fd: true}
 	frontier := []ast.Node{fd.Body}
@@ -270,4 +278,113 @@ func funcInventory() map[string]string {
 		out["@funcs:"+dir] = strings.Join(names, ",")
 	}
 	return out
+}
+
+// ---- renamed locals --------------------------------------------------------------------------------
+// bindingNames lists, in source order, every name a function binds: receiver, parameters, named
+// results, and each `:=` / var / range / function-literal parameter in its body. A clean-up that only
+// renames locals leaves the length of this list and the positions of the bindings unchanged, so the
+// i-th name of the changed function corresponds to the i-th name recorded in the baseline.
+func bindingNames(fd *ast.FuncDecl) []string {
+	var out []string
+	addList := func(fl *ast.FieldList) {
+		if fl == nil {
+			return
+		}
+		for _, f := range fl.List {
+			for _, n := range f.Names {
+				out = append(out, n.Name)
+			}
+		}
+	}
+	addList(fd.Recv)
+	addList(fd.Type.Params)
+	addList(fd.Type.Results)
+	if fd.Body == nil {
+		return out
+	}
+	ast.Inspect(fd.Body, func(n ast.Node) bool {
+		switch x := n.(type) {
+		case *ast.AssignStmt:
+			if x.Tok == token.DEFINE {
+				for _, l := range x.Lhs {
+					if id, ok := l.(*ast.Ident); ok {
+						out = append(out, id.Name)
+					}
+				}
+			}
+		case *ast.ValueSpec:
+			for _, id := range x.Names {
+				out = append(out, id.Name)
+			}
+		case *ast.RangeStmt:
+			if x.Tok == token.DEFINE {
+				for _, e := range []ast.Expr{x.Key, x.Value} {
+					if id, ok := e.(*ast.Ident); ok {
+						out = append(out, id.Name)
+					}
+				}
+			}
+		case *ast.FuncLit:
+			addList(x.Type.Params)
+			addList(x.Type.Results)
+		}
+		return true
+	})
+	return out
+}
+
+// renameBack gives the locals of fd the names they had in the baseline, when fd binds the same number
+// of names in the same places and the correspondence is one-to-one. Returns whether it renamed.
+func renameBack(fd *ast.FuncDecl, base []string) bool {
+	cur := bindingNames(fd)
+	if len(cur) != len(base) || len(cur) == 0 {
+		return false
+	}
+	fwd := map[string]string{}
+	back := map[string]string{}
+	changed := false
+	for i := range cur {
+		c, b := cur[i], base[i]
+		if c == "_" || b == "_" {
+			if c != b {
+				return false
+			}
+			continue
+		}
+		if o, ok := fwd[c]; ok && o != b {
+			return false
+		}
+		if o, ok := back[b]; ok && o != c {
+			return false
+		}
+		fwd[c], back[b] = b, c
+		if c != b {
+			changed = true
+		}
+	}
+	if !changed {
+		return false
+	}
+	skip := map[*ast.Ident]bool{}
+	ast.Inspect(fd, func(n ast.Node) bool {
+		switch x := n.(type) {
+		case *ast.SelectorExpr:
+			skip[x.Sel] = true
+		case *ast.KeyValueExpr:
+			if id, ok := x.Key.(*ast.Ident); ok {
+				skip[id] = true
+			}
+		}
+		return true
+	})
+	ast.Inspect(fd, func(n ast.Node) bool {
+		if id, ok := n.(*ast.Ident); ok && !skip[id] {
+			if b, ok := fwd[id.Name]; ok {
+				id.Name = b
+			}
+		}
+		return true
+	})
+	return true
 }
